@@ -42,10 +42,84 @@ def fn_props(f):
     return ps
 
 
+_COMMON_NAMES = {"new", "read", "write", "connect", "length", "from", "inner", "shutdown", "visit", "options", "next", "process", "get", "into", "clone", "len", "push"}
+_REACH_CACHE = {}
+
+
+def _call_graph(units):
+    """(file, name, impl) -> set of keys of functions under contract it calls, resolved by name on the CURRENT text of /repo.  Names that
+    several functions share and that are generic (`read`, `new` ...) are resolved only for qualified calls `module::[Type::]name(`."""
+    if "graph" in _REACH_CACHE:
+        return _REACH_CACHE["graph"]
+    from vx.extract import FnParts
+    fns = {}
+    byname = {}
+    dev = getattr(sys.modules.get("specs"), "DEV_UNITS", ())
+    for n, u in units.items():
+        if n in dev:
+            continue
+        for x in u.items:
+            if x.kind == "fn":
+                k = (x.file, x.name, x.impl)
+                fns.setdefault(k, []).append((n, x))
+                if k not in byname.setdefault(x.name, []):
+                    byname[x.name].append(k)
+    calls = {}
+    for k in fns:
+        f = fns[k][0][1]
+        try:
+            src = Source.get(f.file)
+            body = FnParts(src, src.find("fn", f.name, f.impl)).body_text()
+        except Exception:
+            body = ""
+        out = set()
+        for name, ks in byname.items():
+            if name in _COMMON_NAMES and len(ks) > 1:
+                for k2 in ks:
+                    mod = k2[0].split("/")[-1][:-3]
+                    if re.search(r"\b%s::(?:\w+::)?%s\s*\(" % (mod, name), body):
+                        out.add(k2)
+                continue
+            if re.search(r"(?<![\w])%s\s*\(" % re.escape(name), body) or re.search(r"[.:]%s\s*(?:::<[^>]*>)?\(" % re.escape(name), body):
+                out.update(k2 for k2 in ks if k2 != k)
+        calls[k] = out
+    _REACH_CACHE["graph"] = (fns, calls)
+    return fns, calls
+
+
+def reach_for(prop, units):
+    """functions under contract that a function tagged with `prop` calls, transitively, WITHOUT being tagged themselves: verification is
+    modular, so a change inside such a callee fails only the callee's own clauses; they are counted for `prop` (all their clauses: there is
+    no tag to select by).  Returns {unit name: set(qname)}."""
+    if prop in _REACH_CACHE:
+        return _REACH_CACHE[prop]
+    fns, calls = _call_graph(units)
+    seed = [k for k, lst in fns.items() if any(prop in fn_props(x) for _, x in lst)]
+    seen = set(seed)
+    todo = list(seed)
+    while todo:
+        k = todo.pop()
+        for k2 in calls.get(k, ()):
+            if k2 not in seen:
+                seen.add(k2)
+                todo.append(k2)
+    out = {}
+    for k in seen:
+        for n, x in fns[k]:
+            if prop not in fn_props(x):
+                out.setdefault(n, set()).add(x.qname())
+    _REACH_CACHE[prop] = out
+    return out
+
+
 def units_for(prop, units):
     out = []
+    reach = reach_for(prop, units) if not os.environ.get("VERIF_NO_CLOSURE") else {}
     for n, u in units.items():
         if getattr(u, "dev", False) or n in getattr(sys.modules.get("specs"), "DEV_UNITS", ()):
+            continue
+        if n in reach:
+            out.append(n)
             continue
         for x in u.items:
             if x.kind == "fn" and prop in fn_props(x):
@@ -277,17 +351,19 @@ def check_property(prop, tier, units, specs, rebaseline=False, only_unit=None, s
         if rebaseline:
             os.makedirs(os.path.join(VERIF, "baseline"), exist_ok=True)
         crate = os.path.basename(oc.path)[:-3]
+        reach_u = ({} if os.environ.get("VERIF_NO_CLOSURE") else reach_for(prop, units)).get(u.name, set())
         for inv in oc.asm.inventory:
             q = inv["qname"]
             f = next(x for x in u.items if x.kind in ("fn", "stub") and x.qname() == q)
             if inv["stub"]:
                 continue
-            if prop not in fn_props(f):
+            via_call = q in reach_u
+            if prop not in fn_props(f) and not via_call:
                 continue
-            fails = [x for x in oc.failures.get(q, []) if (x.get("props") is None or prop in x["props"])]
+            fails = [x for x in oc.failures.get(q, []) if (via_call or x.get("props") is None or prop in x["props"])]
             und = oc.undecided.get(q)
-            nclauses = len([c for c in f.ensures if c.props is None or prop in c.props]) + len(f.requires) + len(f.loops) \
-                + len([c for c in f.claims if len(c) <= 4 or not c[4] or prop in c[4].split(",")])
+            nclauses = len([c for c in f.ensures if via_call or c.props is None or prop in c.props]) + len(f.requires) + len(f.loops) \
+                + len([c for c in f.claims if via_call or len(c) <= 4 or not c[4] or prop in c[4].split(",")])
             clause_count += nclauses
             cands = verus_fn_lookup(oc.res.functions, crate, q)
             t_us = sum(v["time_us"] for _, v in cands)
@@ -303,7 +379,7 @@ def check_property(prop, tier, units, specs, rebaseline=False, only_unit=None, s
                 # count the clauses that did not fail as discharged
                 bad = max(1, len(fails)) if fails else 1
                 discharged += max(0, 1 + nclauses - bad - 1)
-            fn_reports.append(dict(function=q, file=inv["file"], lines=inv["lines"], sha1=inv["sha1"], verdict=("verified" if ok else ("undecided" if und and not fails else "failed")),
+            fn_reports.append(dict(function=q, file=inv["file"], lines=inv["lines"], sha1=inv["sha1"], relation=("callee of a function of this property (call-graph closure)" if via_call else "tagged"), verdict=("verified" if ok else ("undecided" if und and not fails else "failed")),
                                    solver_s=round(t_us / 1e6, 3), clauses=nclauses, backend="verus/z3"))
             if und and not fails:
                 undecided.append("%s: %s" % (q, und))
